@@ -8,6 +8,9 @@ Local Open Scope R_scope.
 Definition oracle := nat -> rule -> R -> R -> option (R * R * R).
 Definition geodesic := nat -> R -> R * R * R.
 Definition envelope := rule -> R -> R -> bool.
+Definition wind := nat -> R -> option R.
+(* whatever ground speed the weather module answers is positive *)
+Definition valid_wind (gsp : wind) : Prop := forall k t g, gsp k t = Some g -> 0 < g.
 
 (* What a valid legacy performance table gives (PerformanceTable.__post_init__ splits the rows by the sign of
    ROCD; TAS is positive; fuel flow is non-negative), and that it answers only inside its envelope. *)
@@ -20,24 +23,32 @@ Definition valid_oracle (perf : oracle) (inside : envelope) : Prop :=
 Notation flight := (@C02_Model.flight RNum).
 Notation result := (@C02_Model.result RNum).
 
-(* [res] is what fly returned for flight [f] (no starting mass handed in; at least two points per phase) *)
-Definition returned (perf : oracle) (geo : geodesic) (f : flight) (it : bool) (mi : nat) (tol : R) (res : result) : Prop :=
+(* one call of fly: weather on/off, a starting mass handed in or not, iteration on/off with its limits *)
+Record call := mkcall {
+  c_wx : bool; c_gfix : bool; c_given : option R; c_it : bool; c_mi : nat; c_tol : R }.
+
+(* [res] is what fly returned for flight [f] (at least two points per phase; hand-over = last point) *)
+Definition returned (perf : oracle) (geo : geodesic) (gsp : wind) (f : flight) (c : call) (res : result) : Prop :=
   (2 <= f_n_clm f)%nat /\ (2 <= f_n_crz f)%nat /\ (2 <= f_n_des f)%nat /\
-  @fly RNum perf geo true f None it mi tol = Ok res.
+  @fly RNum perf geo true gsp (c_wx c) (c_gfix c) f (c_given c) (c_it c) (c_mi c) (c_tol c) = Ok res.
 
 Definition origin_of (f : flight) : R * R * R := (f_o_lon f, f_o_lat f, f_az0 f).
 
 Section Main.
-  Variables (perf : oracle) (geo : geodesic) (inside : envelope).
+  Variables (perf : oracle) (geo : geodesic) (inside : envelope) (gsp : wind).
   Hypothesis valid : valid_oracle perf inside.
-  Variables (f : flight) (it : bool) (mi : nat) (tol : R) (res : result).
-  Hypothesis ret : returned perf geo f it mi tol res.
+  Hypothesis wvalid : valid_wind gsp.
+  Variables (f : flight) (c : call) (res : result).
+  Hypothesis ret : returned perf geo gsp f c res.
+  Let it := c_it c.
+  Let tol := c_tol c.
 
   Let facts_ex :
     exists s, @schedule RNum (f_o_alt f) (f_d_alt f) (f_max_alt f) = Ok s /\ sched_ok s /\
       flight_facts geo inside (origin_of f) f s (r_start_mass res) (r_total_fuel res) (r_traj res) /\
       r_residual res = (r_total_fuel res - (r_start_mass res - p_mass (last (points (r_traj res)) pt0))) / r_total_fuel res /\
-      (it = true -> Rabs (r_residual res) < tol).
+      (it = true -> Rabs (r_residual res) < tol) /\
+      (forall m, c_given c = Some m -> it = false -> r_start_mass res = m).
   Proof.
     destruct valid as (V1 & V2 & V3 & V4). destruct ret as (N1 & N2 & N3 & Hf).
     eapply fly_facts; eauto.
@@ -117,44 +128,58 @@ Section Main.
       p_dist (last (t_climb (r_traj res)) pt0) <= f_total f - s_ddist s.
   Proof. destruct facts_ex as (s & Hs & _ & F & _). exists s. split; auto. apply (ff_long_enough _ _ _ _ _ _ _ _ F). Qed.
 
+  (* a starting mass handed in by the caller is the mass of the first point when the mass is not iterated *)
+  Theorem main_given_starting_mass_is_flown : forall m, c_given c = Some m -> c_it c = false ->
+    r_start_mass res = m /\ p_mass (nth 0 (points (r_traj res)) pt0) = m.
+  Proof.
+    intros m Hg Hi. destruct facts_ex as (s & _ & _ & F & _ & _ & Hm). destruct ret as (N1 & N2 & N3 & _).
+    pose proof (first_point_is_the_start _ _ _ _ _ _ _ _ F N1 N3) as H. cbv zeta in H. destruct H as (A & _).
+    specialize (Hm m Hg Hi). split; auto. rewrite A. exact Hm.
+  Qed.
+
   (* with mass iteration the leftover trip fuel, relative to the fuel load, is within the tolerance *)
   Theorem main_mass_iteration_tolerance : it = true ->
     Rabs (p_fuel (last (points (r_traj res)) pt0) / r_total_fuel res) < tol.
   Proof.
-    destruct facts_ex as (s & _ & _ & F & Hr & Ht). destruct ret as (N1 & _). intros Hit.
+    destruct facts_ex as (s & _ & _ & F & Hr & Ht & _). destruct ret as (N1 & _). intros Hit.
     rewrite <- (residual_is_leftover_fuel _ _ _ _ _ _ _ _ F) by lia. rewrite <- Hr. auto.
   Qed.
 End Main.
 
 (* ---- refusals ---- *)
-Theorem main_airport_above_ceiling_refused : forall (perf : oracle) (geo : geodesic) fixed (f : flight) given it mi tol,
-  f_max_alt f < f_o_alt f -> @fly RNum perf geo fixed f given it mi tol = Err ESchedule.
+Theorem main_airport_above_ceiling_refused : forall (perf : oracle) (geo : geodesic) fixed gsp wx gfix (f : flight) given it mi tol,
+  f_max_alt f < f_o_alt f -> @fly RNum perf geo fixed gsp wx gfix f given it mi tol = Err ESchedule.
 Proof. intros. unfold fly. rewrite origin_above_ceiling_refused; auto. Qed.
 
-Theorem main_destination_above_cruise_refused : forall (perf : oracle) (geo : geodesic) fixed (f : flight) given it mi tol,
+Theorem main_destination_above_cruise_refused : forall (perf : oracle) (geo : geodesic) fixed gsp wx gfix (f : flight) given it mi tol,
   f_o_alt f + ft3000 <= f_max_alt f - ft7000 -> f_max_alt f - ft7000 < f_d_alt f + ft3000 ->
-  @fly RNum perf geo fixed f given it mi tol = Err ESchedule.
+  @fly RNum perf geo fixed gsp wx gfix f given it mi tol = Err ESchedule.
 Proof. intros. unfold fly. rewrite destination_above_cruise_refused; auto. Qed.
 
-Theorem main_too_short_refused : forall (perf : oracle) (geo : geodesic) (step : R) m (p : pt) kp kg,
-  step < 0 -> @crz_loop RNum perf geo step (S m) p kp kg = Err ETrack.
+Theorem main_too_short_refused : forall (perf : oracle) (geo : geodesic) (gsp : wind) wx (step total : R) m (p : pt) kp kg,
+  step < 0 -> exists e, @crz_loop RNum perf geo gsp wx step total (S m) p kp kg = Err e.
 Proof. intros. apply too_short_refused; auto. Qed.
 
-Theorem main_outside_envelope_refused : forall (perf : oracle) (geo : geodesic) rl (lhv start delta : R) m (idx : R) (p : pt) kp kg,
+Theorem main_outside_envelope_refused : forall (perf : oracle) (geo : geodesic) (gsp : wind) wx rl (lhv start delta total : R) m (idx : R) (p : pt) kp kg,
   perf kp rl (start + idx * delta) (p_mass p) = None ->
-  @lc_loop RNum perf geo rl lhv start delta m idx p kp kg = Err EPerf.
+  @lc_loop RNum perf geo gsp wx rl lhv start delta total m idx p kp kg = Err EPerf.
 Proof. intros. apply outside_envelope_refused_lc; auto. Qed.
 
-Theorem main_mass_iteration_tolerance_or_error : forall (perf : oracle) (geo : geodesic) (f : flight) s (tol : R) k t r sm tf kp kg,
-  match @iterate RNum perf geo true f s tol k t r sm tf kp kg with
+Theorem main_mass_iteration_tolerance_or_error : forall (perf : oracle) (geo : geodesic) (gsp : wind) wx (f : flight) s (tol : R) k t r sm tf kp kg,
+  match @iterate RNum perf geo true gsp wx f s tol k t r sm tf kp kg with
   | Ok (t', r', sm', tf', _, _) => Rabs r' < tol
   | Err _ => True
   end.
 Proof. intros. apply iterate_tolerance_or_error. Qed.
 
-Theorem main_no_iterations_left_is_an_error : forall (perf : oracle) (geo : geodesic) fixed (f : flight) s (tol : R) t r sm tf kp kg,
-  @iterate RNum perf geo fixed f s tol 0 t r sm tf kp kg = Err ENoConv.
+Theorem main_no_iterations_left_is_an_error : forall (perf : oracle) (geo : geodesic) fixed (gsp : wind) wx (f : flight) s (tol : R) t r sm tf kp kg,
+  @iterate RNum perf geo fixed gsp wx f s tol 0 t r sm tf kp kg = Err ENoConv.
 Proof. reflexivity. Qed.
+
+(* the finding FC17a as the code stood: a starting mass handed in never produces a trajectory *)
+Theorem main_given_mass_never_flies_before_fix : forall (perf : oracle) (geo : geodesic) (gsp : wind) wx (f : flight) (m : R) it mi tol,
+  exists e, @fly RNum perf geo true gsp wx false f (Some m) it mi tol = Err e.
+Proof. intros. apply given_mass_never_flies_before_fix. Qed.
 
 (* ---- the code as it stands (hand-over index relative to the capacity), at binary64:
    80 points per phase; the cruise starts from the stale copy of point 50, flight time runs backwards ---- *)
@@ -176,7 +201,7 @@ Fixpoint sorted_f (l : list float) : bool :=
   end.
 
 Definition w_times (fixed : bool) : option (list float) :=
-  match @fly FNum w_perf w_geo fixed w_flight None false 5 0.01%float with
+  match @fly FNum w_perf w_geo fixed (fun _ _ => None) false true w_flight None false 5 0.01%float with
   | Ok r => Some (map (@p_time FNum) (points (r_traj r)))
   | Err _ => None
   end.
